@@ -396,6 +396,15 @@ def run(chk):
             corpus.append({"kind": "coerce", "attr": v, "headers": {"kind": hk, "items": items}, "via_response": False})
     cases = corpus + [gen_case(chk.rng) for _ in range(n)]
     obs = common.run_driver("retry_after_driver", cases, jobs=8)
+    # known finding (DESIGN §12, thirteenth wave): a zero-padded digit string longer than CPython's int() digit limit denotes a small
+    # integer ("digit strings of any length ... a decimal integer n within float range gives n") but int() refuses it and no hint
+    # results.  The model has the digit limit in it (theorem hypothesis); replayed here on every run.
+    kf = {"kind": "parse", "s": "0" * 5000 + "5"}
+    ko = common.run_driver("retry_after_driver", [kf])[0]
+    chk.coverage["known_finding_zero_padded"] = {"case": "'0'*5000 + '5'", "observed": ko[:2]}
+    if ko[0] == "parse" and ko[1] is None:
+        chk.violation({"kind": "oracle", "what": "_parse_retry_after('0'*5000 + '5') gives no hint; the text denotes the integer 5",
+                       "case": kf, "observed": ko, "driver": "retry_after_driver"}, signature="C20-zero-padded-beyond-digit-limit")
     bad = [(c, o, m) for c, o in zip(cases, obs) for m in [oracle(c, o) or header_oracle(c, o)] if m]
     failing, errors = [], []
     if ok:
